@@ -199,6 +199,52 @@ func (c *octx) onlyModelVisits(clause string) *eng.Violation {
 	return nil
 }
 
+// c18Cancelled: the run was cancelled from inside one of its callbacks. It may
+// fail with the context's error; if it reports success the action is non-empty,
+// and a flow that reports success has followed the default connection.
+func (c *octx) c18Cancelled() *eng.Violation {
+	sc := c.sc
+	for i, or := range c.obs.Runs {
+		e := or.End
+		if e == nil || e.S2 != "nil" {
+			continue
+		}
+		if e.S1 == "" {
+			return c.viol("action", "run %d succeeded with the empty action (the context had been cancelled meanwhile; a success still reports the default action)", i)
+		}
+		root := sc.Nodes[sc.Root]
+		if root.Kind != "flow" {
+			continue
+		}
+		w := -1
+		for _, cn := range root.Conns {
+			if cn.From == root.Start && cn.Action == "default" {
+				w = cn.To
+			}
+		}
+		postAction, posted := "", false
+		for _, ev := range or.All {
+			if ev.Kind == "post_end" && ev.I == 0 && strings.HasPrefix(ev.S1, "ok:") {
+				postAction, posted = strings.TrimPrefix(ev.S1, "ok:"), true
+				break
+			}
+		}
+		if w < 0 || !posted || normAction(postAction) != "default" {
+			continue
+		}
+		seen := false
+		for _, ev := range or.All {
+			if ev.N == w && isCallback(ev.Kind) {
+				seen = true
+			}
+		}
+		if !seen {
+			return c.viol("default-connection", "run %d: the flow reported success although its first step finished with the default action and the connection on the default action (to node %d) was never followed", i, w)
+		}
+	}
+	return nil
+}
+
 func first(vs ...*eng.Violation) *eng.Violation {
 	for _, v := range vs {
 		if v != nil {
@@ -239,6 +285,9 @@ func oracle(c *octx) *eng.Violation {
 	case "C17":
 		return first(c.mainEq("payload", projC17, false), c.lanesEq("item-payload", projC17, false), c.slots("slot"))
 	case "C18":
+		if c.sc.Ctx.Kind == "cancel" {
+			return c.c18Cancelled()
+		}
 		return first(c.outcome("action", true, false), c.mainEq("default-connection", projVisits, false))
 	case "C06":
 		if c.sc.Ctx.Kind == "cancel" {
